@@ -68,12 +68,101 @@ def _case(draw):
 RICH_FACTOR = 1000.0   # Richardson pieces are the un-extrapolated sub-steps: observed up to 110 x tolerance (worst_observed in the evidence)
 
 
+@st.composite
+def _constants(draw):
+    """y' = k R y with the constant k edited IN PLACE (system.constants['k'] = ...) between integrate() calls and / or by a
+    callback in the middle of a call: the pieces recorded afterwards belong to the new right-hand side"""
+    method = draw(traj.method_name(weights=[4, 4, 3, 2, 1, 2]))
+    fam = M.family(M.get(method))
+    slow = fam in ("implicit_fixed", "implicit_embedded", "richardson")
+    t0, tf = draw(traj.span(max_len=3.0))
+    L = abs(tf - t0)
+    frac = draw(st.sampled_from([1 / 8.0, 1 / 16.0, 0.1, 0.3] if slow else [1 / 8.0, 1 / 16.0, 1 / 32.0, 0.1, 0.3]))
+    w = draw(st.sampled_from([1.0, 0.5, 2.0])) / max(1.0, L)
+    cuts = sorted(draw(st.lists(st.sampled_from([0.25, 0.5, 0.7]), min_size=1, max_size=2, unique=True)))
+    ks = [draw(st.sampled_from([1.0, 3.0, -2.0, 0.25])) for _ in range(len(cuts) + 1)]
+    return dict(part="constants", method=method, dtype="float64", w=w, damp=draw(st.sampled_from([0.0, -0.5])) if fam != "splitting" else 0.0,
+                y0=[draw(st.sampled_from([1.0, -0.5, 2.0])), draw(st.sampled_from([0.0, 1.0, -0.75]))], t0=t0, tf=tf, dt=L * frac,
+                rtol=1e-8, atol=1e-8, cuts=cuts, ks=ks, cb_at=draw(st.sampled_from([None, None, 1, 2, 3])), cb_k=draw(st.sampled_from([2.0, -1.0, 0.5])))
+
+
 def parts(tier):
     q = tier == "quick"
-    return [Part("dense", strategy=_case(), examples=700 if q else 15000, timeout=300)]
+    return [Part("dense", strategy=_case(), examples=700 if q else 15000, timeout=300),
+            Part("constants", strategy=_constants(), examples=300 if q else 6000, timeout=300)]
+
+
+def _check_constants(case):
+    import desolver as de
+    method = case["method"]
+    fam = M.family(M.get(method))
+    attrs = dict(method=method, family=fam)
+    backward = case["tf"] < case["t0"]
+    labels = ["constants:" + fam, "backward" if backward else "forward"]
+    R = np.array([[case["damp"], case["w"]], [-case["w"], case["damp"]]])
+
+    def rhs(t, y, k=1.0, **kw):
+        return k * (R @ y)
+    consts = dict(k=case["ks"][0])
+    a = de.OdeSystem(rhs, y0=np.array(case["y0"], dtype=np.float64), t=(case["t0"], case["tf"]), dense_output=True, dt=case["dt"],
+                     rtol=case["rtol"], atol=case["atol"], constants=consts)
+    a.method = M.get(method)
+    k_of_step = []       # the constant in force while step i was taken
+
+    def cb(system):
+        while len(k_of_step) < len(system) - 1:
+            k_of_step.append(float(system.constants["k"]) if not cb_state["pending"] else cb_state["old"])
+        cb_state["pending"] = False
+        cb_state["n"] += 1
+        if case["cb_at"] is not None and cb_state["n"] == case["cb_at"]:
+            system.constants["k"] = case["cb_k"]          # edited in place, in the middle of a call
+            labels.append("constant_changed_in_callback")
+    cb_state = dict(n=0, pending=False, old=None)
+    span = case["tf"] - case["t0"]
+    targets = [case["t0"] + c * span for c in case["cuts"]] + [None]
+    for j, tg in enumerate(targets):
+        a.constants["k"] = case["ks"][j] if not (j > 0 and case["cb_at"] is not None and cb_state["n"] >= case["cb_at"] and False) else a.constants["k"]
+        err = traj.run_integrate(a, tg, step_limit=len(a) + (200 if fam in ("implicit_fixed", "implicit_embedded", "richardson") else 1500), callbacks=[cb])
+        if isinstance(err, traj.StepCap):
+            return [], dict(nontrivial=False, labels=labels + ["capped"])
+        if err is not None:
+            if isinstance(err.__cause__, de.exception_types.FailedToMeetTolerances):
+                return [], dict(nontrivial=False, labels=labels + ["reported_failure"])
+            return [V("integrate_raised", "{} raised {!r} caused by {!r}".format(method, err, err.__cause__), fam + exc_sig(err), **attrs)], dict(nontrivial=False, labels=labels)
+    t = np.asarray(a.t, dtype=np.float64)
+    y = np.asarray(a.y, dtype=np.float64)
+    N = len(t) - 1
+    if len(k_of_step) != N or not np.all(np.isfinite(y)) or float(np.max(np.abs(y))) > 1e6:
+        return [], dict(nontrivial=False, labels=labels + ["skipped:bookkeeping" if len(k_of_step) != N else "unstable_run"])
+    viols = []
+    sol = a.sol
+    changes = sum(1 for i in range(1, N) if k_of_step[i] != k_of_step[i - 1])
+    scale = float(np.max(np.abs(y))) * (abs(case["w"]) + abs(case["damp"])) * max(abs(k) for k in k_of_step)
+    for i in range(N):
+        h = t[i + 1] - t[i]
+        k = k_of_step[i]
+        for (tq, yq, side) in ((t[i] + 1e-7 * h, y[i], "start"), (t[i + 1] - 1e-7 * h, y[i + 1], "end")):
+            got = np.asarray(sol.grad(np.float64(tq)), dtype=np.float64)
+            want = k * (R @ yq)
+            # (1e-7 of the step away from the node: the slope of a cubic piece moves by <= 6e-7 x (slope scale + increment / h))
+            allowed = 1e-5 * (scale + float(np.max(np.abs(y[i + 1] - y[i]))) / abs(h)) + 1e-12
+            if not float(np.max(np.abs(got - want))) <= allowed:
+                viols.append(V("piece_slope_of_old_rhs", "{}: step {} of {} [{!r}, {!r}] was taken with k = {} but the {} slope of its dense piece is {} (k R y = {}; with the previous k = {}: {})".format(
+                    method, i, N, float(t[i]), float(t[i + 1]), k, side, got.tolist(), want.tolist(), k_of_step[i - 1] if i else None, (k_of_step[i - 1] * (R @ yq)).tolist() if i else None),
+                    fam, direction="backward" if backward else "forward", **attrs))
+                break
+        if viols:
+            break
+        got_node = np.asarray(sol(np.float64(t[i + 1])), dtype=np.float64)
+        if not np.array_equal(got_node, y[i + 1]):
+            viols.append(V("node_value", "{}: sol(t[{}]) differs from the recorded state by {:.3e}".format(method, i + 1, float(np.max(np.abs(got_node - y[i + 1])))), fam, **attrs))
+            break
+    return viols, dict(nontrivial=bool(changes >= 1), labels=labels, counts=dict(recorded_steps=N, constant_changes_inside_the_record=changes))
 
 
 def check(case):
+    if case["part"] == "constants":
+        return _check_constants(case)
     import desolver as de
     method = case["method"]
     fam = M.family(M.get(method))
